@@ -96,9 +96,9 @@ Proof.
   - intros x n H. unfold in_pack, pack_objs, idx_ok in *. now rewrite !P.
 Qed.
 
-Lemma setobj_safe g fs o : repo_ok g fs -> crash_safe g fs (op_setobj fs o).
+Lemma setobj_k_safe g fs k o : repo_ok g fs -> crash_safe g fs (op_setobj_k fs k o).
 Proof.
-  intro R. unfold crash_safe, op_setobj.
+  intro R. unfold crash_safe, op_setobj_k.
   destruct (fexists fs (PLoose o)); cbn [app crash_states mid_states apply];
     rewrite ?flookup_fset, ?path_eqb_refl; split_states;
     (apply (setobj_state g fs _ o); [| | | |exact R];
@@ -107,6 +107,9 @@ Proof.
      |intros x Hx; flk; try reflexivity; apply N.eqb_neq in Hx; rewrite N.eqb_sym in Hx; now rewrite ?Hx
      |flk; rewrite ?N.eqb_refl; auto]).
 Qed.
+
+Lemma setobj_safe g fs o : repo_ok g fs -> crash_safe g fs (op_setobj fs o).
+Proof. apply setobj_k_safe. Qed.
 
 (* ---------- pack write ---------- *)
 
@@ -970,3 +973,35 @@ Proof.
     + apply Forall_forall. intros s Hs. apply remove_prefixes_spec in Hs as (ps' & -> & rr & E). now apply (RunP ps' rr).
     + constructor; [|constructor]. apply (RunP Pdel []). now rewrite app_nil_r.
 Qed.
+
+(* ---------- commit: objects first, the reference last ---------- *)
+
+Lemma op_setobj_k_ne fs k o : op_setobj_k fs k o <> [].
+Proof. unfold op_setobj_k. discriminate. Qed.
+
+Lemma setobjs_safe g os : forall k fs, repo_ok g fs ->
+  crash_safe g fs (op_setobjs k fs os) /\ repo_ok g (run (op_setobjs k fs os) fs).
+Proof.
+  induction os as [|o r IH]; intros k fs R; cbn [op_setobjs].
+  - split; [constructor|exact R].
+  - assert (H1 := setobj_k_safe g fs k o R).
+    assert (R1 : repo_ok g (run (op_setobj_k fs k o) fs)).
+    { eapply Forall_forall; [exact H1|]. apply run_in_states. apply op_setobj_k_ne. }
+    destruct (IH (S k) _ R1) as [H2 R2]. split.
+    + unfold crash_safe. rewrite crash_states_app. apply Forall_app. now split.
+    + unfold run in *. now rewrite fold_left_app.
+Qed.
+
+(* every crash state of a commit outside the final reference window is fine *)
+Lemma commit_partial g fs os n v s :
+  repo_ok g fs -> repo_ok g (run (op_commit fs os n v) fs) ->
+  In s (crash_states (op_commit fs os n v) fs) -> whole_at s (refpath n) = true -> repo_ok g s.
+Proof.
+  intros R Rf Hs Hw. unfold op_commit in *. rewrite crash_states_app in Hs.
+  apply in_app_or in Hs as [Hs|Hs].
+  - destruct (setobjs_safe g os 0%nat fs R) as [H _]. eapply Forall_forall; eassumption.
+  - eapply setref_partial; try eassumption. unfold run in *. now rewrite fold_left_app in Rf.
+Qed.
+
+Lemma commit_objects_safe g fs os : repo_ok g fs -> crash_safe g fs (op_setobjs 0 fs os).
+Proof. intro R. now destruct (setobjs_safe g os 0%nat fs R). Qed.
